@@ -128,6 +128,16 @@ def preprocess_import_document_paths(doc_path, base_path):
     return doc_path
 
 
+def pattern_whole_reference(reference):
+    # type: (str) -> "re.Pattern"
+    """Returns a pattern which matches occurrences of a reference string that are not part of a longer reference
+
+    A reference ($producer[/$path]:$method) is not self-delimiting: `A:ref` is a suffix of `BA:ref`, of `stage0.A:ref`
+    and of `0#A:ref`, and `A:copy` is a prefix of `A:copyout`.
+    """
+    return re.compile(r'(?<![\w.#-])' + re.escape(reference) + r'(?![\w])')
+
+
 def rewrite_reference(reference, binding_values, import_to_stage, owner_component_stage):
     stage_idx, orig_producer, original_filename, orig_method = \
         FlowIR.ParseDataReferenceFull(reference, owner_component_stage)
@@ -1485,7 +1495,8 @@ class FlowIR(object):
                         producer=producer, filename=filename, method=method)
                     update_refs.append(extra_ref)
                 for ref in update_refs:
-                    expression = re.compile(r"%s((?:/[\w.*]+)+,*)?" % ref)
+                    # VV: only match whole references (e.g. `A:ref` must not match inside `BA:ref`)
+                    expression = re.compile(r"(?<![\w.#-])%s(?![\w])((?:/[\w.*]+)+,*)?" % re.escape(ref))
                     orig_string = string
                     m = expression.search(string)
                     if m is not None:
@@ -1502,9 +1513,10 @@ class FlowIR(object):
     
                             replacement = ["%s%s" % (el, path) for el in translation_map[ref]]
                             replacement = separator.join(replacement)
-                            string = expression.sub(replacement, string)
+                            string = expression.sub(lambda m, replacement=replacement: replacement, string)
                         else:
-                            string = string.replace(ref, " ".join(translation_map[ref]))
+                            string = pattern_whole_reference(ref).sub(
+                                lambda m, ref=ref: " ".join(translation_map[ref]), string)
                         if string != orig_string:
                             # VV: if we replaced the Absolute ref we must skip replacing the relative ref becuase
                             # we'll end up with stage<idx>.stage<idx>.<component name>
@@ -1569,7 +1581,9 @@ class FlowIR(object):
         def translation_func(string):
             # type: (str) -> str
             for original in sorted_translation:
-                string = string.replace(original, translation[original])
+                # VV: only rewrite whole references (e.g. `A:ref` must not be rewritten inside `BA:ref`)
+                string = pattern_whole_reference(original).sub(
+                    lambda m, original=original: translation[original], string)
 
             return string
 
